@@ -3,6 +3,8 @@ CONSTANTS
   Names = {"a", "b"}
   Depth = 2
   MaxArr = 1
+  MaxCustom = 99
+  EmitEvery = 50
   Decoys = {0, 2}
   HolderKeys = {"", "H1"}
   PlanSet <- Plans
@@ -18,5 +20,5 @@ CONSTANTS
   Ticks = {0}
   NarrowSels <- NoNarrow
   KeyFam <- Fam
-INVARIANTS Inv_C01 Inv_C02 Inv_C03 Inv_C04 Inv_C04args Inv_C09 Inv_Clean Inv_IssueRel Inv_PresentRel Inv_Round
+INVARIANTS Inv_C01 Inv_C02 Inv_C03 Inv_C04 Inv_C04args Inv_C09 Inv_Clean Inv_IssueRel Inv_PresentRel Inv_Round EmitScenario
 CHECK_DEADLOCK FALSE
